@@ -69,7 +69,7 @@ func c02Segment(sc *WF, seg []Ev) string {
 		if errMatches(fb.InErr, lastErr) != "" {
 			return fmt.Sprintf("%s: fallback received error %q, the last attempt returned %q", name, fb.InErr, lastErr)
 		}
-		if !samePayload(fb.In, prep.Ret) {
+		if !fbArgIs(fb.In, prep.Ret, l) {
 			return fmt.Sprintf("%s: fallback received value %#v, prep returned %#v", name, fb.In, prep.Ret)
 		}
 		if fb.Seq < execs[len(execs)-1].Seq {
@@ -120,7 +120,9 @@ func c02Body(sc *WF) Verdict {
 			return bad("C02:panic", "run panicked: %s", rr.Panic)
 		}
 		if ctx.Err() != nil {
-			return inconclusive("a deadline placed after the natural end of the run expired during it")
+			// this run took longer than the reference run of the same scenario (waits need not be
+			// reproducible, e.g. jitter): the deadline was not "beyond the end", nothing to assert
+			return ok(false, "live-deadline-expired")
 		}
 		if sc.DeadlineMs > 0 {
 			classes["live-deadline"] = true
@@ -253,6 +255,9 @@ func checkC02Batch(t *testing.T, sc BatchSc) Verdict {
 	x, br, fail := runBatchCase(t, &sc, nil)
 	if fail != "" && !goroutinesRemain(fail) {
 		return bad("C02:bubble", "%s", fail)
+	}
+	if br.Rejected {
+		return ok(false, "prep-form-rejected")
 	}
 	if br.Panic != "" {
 		return bad("C02:panic", "run panicked: %s", br.Panic)
